@@ -176,19 +176,30 @@ pub fn compare_archives<P: AsRef<Path>>(
         filter,
     )?;
 
+    // A common file can differ in size, in content and in metadata all at once, and is
+    // still one different file
+    let different_names: HashSet<&str> = files
+        .size_differences
+        .iter()
+        .map(|diff| diff.name.as_str())
+        .chain(files.content_differences.iter().map(String::as_str))
+        .chain(
+            files
+                .metadata_differences
+                .iter()
+                .map(|diff| diff.name.as_str()),
+        )
+        .collect();
+    let different_files = different_names.len();
+
     // Generate summary
     let summary = ComparisonSummary {
         source_files: metadata.file_count.0,
         target_files: metadata.file_count.1,
         source_only_count: files.source_only.len(),
         target_only_count: files.target_only.len(),
-        different_files: files.size_differences.len()
-            + files.content_differences.len()
-            + files.metadata_differences.len(),
-        identical_files: files.common_files.len()
-            - files.size_differences.len()
-            - files.content_differences.len()
-            - files.metadata_differences.len(),
+        different_files,
+        identical_files: files.common_files.len() - different_files,
     };
 
     // Determine if archives are identical
